@@ -91,6 +91,7 @@ func main() {
 	r := newRun(*id, *tier, *seed, *driver, *rdir, *kf)
 	r.replayFile = *replay
 	start := time.Now()
+	r.outPath, r.started = *out, start
 	startGuard(r, *out, start)
 	fn(r)
 	r.finish(*out, time.Since(start))
